@@ -392,6 +392,62 @@ func (ex *Exec) verifIntrinsic(st *PState, fn *ssa.Function, base string, args [
 			}
 		}
 		return nil, true
+	case "verifGlobalsReadOnly":
+		// from here on every package-level variable (already touched or not) is read-only
+		ex.cfg.Opts["globals_readonly"] = "1"
+		for _, o := range ex.globalObj {
+			o.ReadOnly = true
+		}
+		return nil, true
+	case "verifReadOnlyDeep":
+		// mark every object reachable from the argument read-only (frame condition on a whole structure)
+		seen := map[int]bool{}
+		var walkV func(v Value, depth int)
+		mark := func(o *Object, depth int) {
+			if o == nil || seen[o.ID] {
+				return
+			}
+			seen[o.ID] = true
+			o.ReadOnly = true
+			if cur, ok := st.heap.Get(o); ok {
+				walkV(cur, depth+1)
+			}
+		}
+		walkV = func(v Value, depth int) {
+			if depth > 12 {
+				return
+			}
+			switch q := v.(type) {
+			case *PtrV:
+				mark(q.Obj, depth)
+			case *SliceV:
+				mark(q.Obj, depth)
+			case MapV:
+				mark(q.Obj, depth)
+			case *MapV:
+				mark(q.Obj, depth)
+			case *IfaceV:
+				walkV(q.V, depth+1)
+			case *StructV:
+				for _, f := range q.F {
+					walkV(f, depth+1)
+				}
+			case *ArrayV:
+				for _, e := range q.E {
+					walkV(e, depth+1)
+				}
+			case *ChoiceV:
+				for _, a := range q.Alts {
+					walkV(a.V, depth+1)
+				}
+			case *MapData:
+				for _, e := range q.Ent {
+					walkV(e.Val, depth+1)
+				}
+			}
+		}
+		walkV(args[0], 0)
+		return nil, true
 	case "verifDump":
 		ex.note(fmt.Sprintf("dump %s = %v", constString(args[0]), args[1]))
 		return nil, true
@@ -510,6 +566,42 @@ func (ex *Exec) verifIntrinsic(st *PState, fn *ssa.Function, base string, args [
 		// verifCycScalar[T](name string) T: an arbitrary scalar (element of the coefficient field)
 		rt := fn.Signature.Results().At(0).Type()
 		return ex.cycScalar(ex.vecDim(rt), ex.newVar(ex.uniq(constString(args[0])), SReal, nil, nil)), true
+	case "verifCycScale":
+		// verifCycScale[T, E any](a T, s E) T: the ring element a multiplied by the scalar s (an
+		// abstracted real element or a ring element of the same kind)
+		a := args[0].(*VecV)
+		switch sv := args[1].(type) {
+		case *Term:
+			r := &VecV{C: make([]*Term, len(a.C))}
+			for i := range r.C {
+				r.C[i] = ts.Mul(sv, a.C[i])
+			}
+			return r, true
+		case *VecV:
+			return ex.cycMul(a, sv), true
+		}
+		fail("verifCycScale: scalar is %T", args[1])
+	case "verifCycCoef":
+		// verifCycCoef[T, E any](a T, i int) E: coefficient i of a ring element, as an abstracted real element
+		a := args[0].(*VecV)
+		return a.C[ex.constIntArg(args[1])], true
+	case "verifCycOf":
+		// verifCycOf[T, E any](s E) T: the scalar s (abstracted real element) as a ring element
+		rt := fn.Signature.Results().At(0).Type()
+		return ex.cycScalar(ex.vecDim(rt), args[0].(*Term)), true
+	case "verifVecBig":
+		// verifVecBig[T](coefs ...*big.Int) T: module element with the given (arbitrary precision) coefficients
+		sl := args[0].(*SliceV)
+		n := ex.constIntArg(sl.Len)
+		v := &VecV{}
+		for i := int64(0); i < n; i++ {
+			v.C = append(v.C, ex.ldT(st, ex.sliceElem(st, sl, ts.Int64(i))))
+		}
+		rt := fn.Signature.Results().At(0).Type()
+		if d := ex.vecDim(rt); d != len(v.C) {
+			fail("verifVecBig: type %s has dimension %d, got %d coefficients", rt, d, len(v.C))
+		}
+		return v, true
 	case "verifVecCoefBig":
 		// verifVecCoefBig[T](p *T, i int) *big.Int: coefficient i of a module element
 		vv := ex.ldV(st, args[0])
